@@ -27,6 +27,7 @@ class InjectedFault(Exception):
 
 
 FAULT_EXC = {
+    "KeyboardInterrupt": KeyboardInterrupt,      # not an Exception subclass: "raises and changes nothing" has no exemption for it
     "InjectedFault": InjectedFault,
     "MemoryError": MemoryError,
     "RecursionError": RecursionError,
@@ -271,7 +272,7 @@ def gen_scenario(rng, index, faults_enabled):
                     f["u"] = rng.random()
                     # where: uniform over line events / over stage calls, or shortly before the end of the compile
                     f["mode"] = rng.choice(["line", "line", "call", "late_line", "late_call", "late_call"])
-                    f["exc"] = rng.choice(["InjectedFault", "InjectedFault", "MemoryError", "RecursionError", "OSError"])
+                    f["exc"] = rng.choice(["InjectedFault", "InjectedFault", "MemoryError", "RecursionError", "OSError", "KeyboardInterrupt"])
                 elif fk in ("stdout", "stderr"):
                     f["errno"] = rng.choice(["EPIPE", "ENOSPC", "EIO"])
                 op["fault"] = f
@@ -579,7 +580,9 @@ class Runner:
                 try:
                     obj = self.EE(t["text"])
                     res = ("ok",)
-                except Exception as e:  # noqa: BLE001
+                except SimDeadlock:
+                    raise
+                except BaseException as e:  # noqa: BLE001 - injected KeyboardInterrupt included
                     obj = None
                     res = ("raise", type(e).__name__)
             else:
@@ -587,7 +590,9 @@ class Runner:
                 try:
                     r = slots[s].recompile(t["text"])
                     res = ("ok",) if r is None else ("ok-nonnone", repr(r))
-                except Exception as e:  # noqa: BLE001
+                except SimDeadlock:
+                    raise
+                except BaseException as e:  # noqa: BLE001
                     res = ("raise", type(e).__name__)
         finally:
             sys.settrace(None)
